@@ -370,7 +370,7 @@ func (fc *FCtx) ctxTheory() *Sort {
 	fc.U.Fun("ctx_blockheight", []*Sort{c}, SInt)
 	fc.U.Fun("ctx_chainid", []*Sort{c}, SStr)
 	fc.U.Axiom("a cache context has its parent's block header", "(forall ((c Ctx) (k Int)) (! (and (= (ctx_blocktime (cache_ctx c k)) (ctx_blocktime c)) (= (ctx_blockheight (cache_ctx c k)) (ctx_blockheight c)) (= (ctx_chainid (cache_ctx c k)) (ctx_chainid c))) :pattern ((cache_ctx c k))))")
-	fc.U.Axiom("block height is an int64", "(forall ((c Ctx)) (! (in_int64 (ctx_blockheight c)) :pattern ((ctx_blockheight c))))")
+	fc.U.Axiom("block height is a non-negative int64 (CometBFT heights start at 1; 0 during InitChain)", "(forall ((c Ctx)) (! (and (in_int64 (ctx_blockheight c)) (>= (ctx_blockheight c) 0)) :pattern ((ctx_blockheight c))))")
 	return c
 }
 
